@@ -83,6 +83,12 @@ CHECKS = {
    text="TLC enumerates every (builder, wx, wy, wz) for widths 1..5 (all pairs; result widths max, max+1, 2*max, 2*max+3) and equal widths up to 8 and prints the complete truth table of the exact function (23 builders incl. signed/unsigned division and modulo, comparators, mux, bitwise, Hamming); the harness builds each circuit the way ssa/circuitgen.go does (intermediate wires, ID to outputs, ConstPropagate, ShortCircuitXORZero, optional Prune, Compile) for both targets and compares every entry; for operand widths 7..130 (every Karatsuba switch point +-1, 2^k and 2^k+-1) boundary-pattern operands are evaluated on the real circuits and TLC checks each result relationally on base-4096 limbs (z+y = x mod 2^wz, q*y+r = x and r < y, sign rules).",
    note="Trusts TLC, Circuit.Compute as evaluator, the limb arithmetic (self-checked by an ASSUME against TLC's native integers); deviations for result widths above the operand widths and two GMW divider cases are listed in KNOWN_FINDINGS.json.",
    ref="5 C07"),
+ "C09": dict(
+   technique="TLA+ spec Opt.tla (ConstPropagate / ShortCircuit / Prune as a transition system over all small gate graphs, invariant SameFunction, exhaustively model-checked) whose graphs (OptGen.tla) are replayed through the real passes for both targets; TLC-generated MPCL programs (Mpcl.tla) compiled under every option combination and compared on every input",
+   level="model_checking",
+   text="TLC explores every graph of up to 2 (all operators) / 3 (XOR, AND, INV) gates over 2 inputs and the constant wires with every output marking and checks after each step of the passes that the circuit outputs still compute the original function, that attached constants are sound, that no output loses its driver and that gate order stays topological; the same graphs (plus simulated 4-gate graphs) are built with the real circuits.Compiler, optimised with pruning on and off for Yao and GMW, and compared on all inputs with the graph's truth table; generated programs are compiled under {prune} x {multiplier thresholds 0, 8, 16, 21, 64} x {Yao, GMW} and compared on every input (exhaustive up to 16 input bits) with the interpreter's prediction for the default configuration.",
+   note="Trusts TLC, Circuit.Compute as evaluator and the harness' graph builder; Opt.tla puts output flags directly on gate wires whereas the code feeds outputs through identity gates.",
+   ref="5 C09"),
 }
 
 NOT_APPLICABLE = {}
